@@ -721,6 +721,9 @@ func C11Matrix() []c11Cell {
 	for _, ca := range []string{"cancel", "localclose", "peereof", "peerreset"} {
 		cells = append(cells, c11Cell{"disconnect", "before", ca})
 	}
+	// Connect called with a context that has already ended, then a local Close:
+	// the connection object ends like any other (Done() closed, nothing left)
+	cells = append(cells, c11Cell{"connect", "before+close", "cancel"})
 	cells = append(cells, c11Cell{"connect", "after-disconnect", "none"})
 	cells = append(cells, c11Cell{"disconnect", "during-close", "peereof"}, c11Cell{"publish1", "during-close", "peereof"})
 	// Connect / Disconnect of the reconnecting client
@@ -730,6 +733,7 @@ func C11Matrix() []c11Cell {
 		}
 	}
 	cells = append(cells, c11Cell{"rc-disconnect", "after-cancelled-connect", "none"})
+	cells = append(cells, c11Cell{"rc-disconnect", "connect-cancelled-afterdial", "none"})
 	for _, st := range []string{"connected", "backoff", "dialparked", "connack"} {
 		for _, ca := range []string{"none", "deadline"} {
 			cells = append(cells, c11Cell{"rc-disconnect", st, ca})
@@ -824,6 +828,16 @@ func genC11ReconnCell(r *Rng, cell c11Cell) *Scenario {
 		sc.HorizonUs, sc.EndUs = 20000, 60000
 		return sc
 	}
+	if cell.step == "connect-cancelled-afterdial" {
+		// Connect's context ends after the dial succeeded and before CONNECT is
+		// exchanged (the loop is parked right after the dial): the attempt is given
+		// up, the loop stops, and a later Disconnect completes
+		cfg.Yields = map[string]int64{"reconn.afterDial": 500}
+		sc.Ops = append(sc.Ops, Op{AtUs: 300, Actor: -1, Kind: "cancel", Target: 0})
+		sc.Ops = append(sc.Ops, Op{AtUs: 3000, Actor: 1, Kind: "disconnect", Token: "must-return"})
+		sc.HorizonUs, sc.EndUs = 20000, 60000
+		return sc
+	}
 	if cell.call == "rc-connect" {
 		if cell.cause == "cancel" {
 			sc.Ops = append(sc.Ops, Op{AtUs: tc, Actor: -1, Kind: "cancel", Target: 0})
@@ -875,6 +889,10 @@ func genC11Cell(r *Rng, cell c11Cell) *Scenario {
 	if cell.call == "connect" {
 		sc.Ops = append(sc.Ops, Op{AtUs: 100, Actor: 0, Kind: "connect"})
 		switch cell.step {
+		case "before+close":
+			sc.Ops = append([]Op{{AtUs: 10, Actor: 5, Kind: "handle", Handler: 1}}, sc.Ops...)
+			applyCause(sc, "cancel", 50, len(sc.Ops)-1, r)
+			sc.Ops = append(sc.Ops, Op{AtUs: 1000, Actor: -1, Kind: "close", Cli: 0})
 		case "before":
 			if cell.cause == "writeerr" {
 				// the CONNECT write itself fails
